@@ -103,6 +103,7 @@ class Translator:
         self.records = records or {}
         self.enums = {}
         self.globals = {}
+        self.ambient = {}        # identifiers (file-static objects, members of *this) that become parameters
         self.const_lookup = None
         self.funcs_pending = set()
 
@@ -124,6 +125,8 @@ class Translator:
             return 'Z'
         if q in self.enums:
             return q
+        if q in ('hdf5::H5Group', 'H5Group', 'hdf5::LocID', 'LocID'):
+            return 'attrs'
         if q in self.records:
             return q
         m = re.match(r'boost::optional<(.*)>$', q)
@@ -169,6 +172,10 @@ class Translator:
         k = node.get('kind')
         if k == 'CXXThrowExpr' or k == 'WhileStmt':
             return True
+        if k == 'CXXConstructExpr' and node.get('type', {}).get('qualType', '').replace('nix::', '') in self.records:
+            a0 = [c for c in node.get('inner', []) if c.get('kind') != 'CXXDefaultArgExpr']
+            if len(a0) == 1 and 'vector' in self.strip(a0[0]).get('type', {}).get('qualType', ''):
+                return True
         if k == 'ImplicitCastExpr' and node.get('castKind') == 'FloatingToIntegral':
             return True
         if k in ('CXXOperatorCallExpr', 'CXXMemberCallExpr', 'CallExpr'):
@@ -205,6 +212,10 @@ class Translator:
             obj = me['inner'][0]
             if nm == 'operator bool':
                 return ('optbool', obj)
+            if nm == 'hasAttr' and len(inner) == 2:
+                return ('hasattr', obj, inner[1])
+            if nm == 'getAttr' and len(inner) == 3:
+                return ('getattr', obj, inner[1], inner[2])
             if nm == 'size' or nm == 'length':
                 return ('size', obj)
             if nm == 'empty':
@@ -227,6 +238,8 @@ class Translator:
                 return ('optnot', args[0])
             if nm == 'operator[]' and self.is_string(args[0]):
                 return ('stridx', args[0], args[1])
+            if nm in ('operator==', 'operator!=') and len(args) == 2 and self.is_string(args[0]) and self.is_string(args[1]):
+                return ('streq', args[0], args[1], nm == 'operator!=')
             if nm == 'operator=':
                 return ('assign', args[0], args[1])
             rec = self.rec_of(self.strip(args[0]))
@@ -262,7 +275,8 @@ class Translator:
             return b, t
         if k == 'ImplicitCastExpr' or k == 'CXXStaticCastExpr' or k == 'CXXFunctionalCastExpr':
             ck = n.get('castKind')
-            if ck in ('LValueToRValue', 'NoOp', 'FunctionToPointerDecay', 'ConstructorConversion', 'ArrayToPointerDecay'):
+            if ck in ('LValueToRValue', 'NoOp', 'FunctionToPointerDecay', 'ConstructorConversion', 'ArrayToPointerDecay',
+                      'UncheckedDerivedToBase', 'DerivedToBase'):
                 return self.expr(inner[0], cx)
             if ck == 'IntegralCast':
                 b, t = self.expr(inner[0], cx)
@@ -295,7 +309,7 @@ class Translator:
         if k == 'CharacterLiteral':
             return [], '(%s)' % n['value']
         if k == 'StringLiteral':
-            return [], n['value'] + '%string'
+            return [], '(' + n['value'] + '%string)'
         if k == 'CXXBoolLiteralExpr':
             return [], 'true' if n['value'] else 'false'
         if k == 'CXXThisExpr':
@@ -311,8 +325,12 @@ class Translator:
             if nm == 'none':
                 return [], 'None'
             if nm not in cx.types:
+                if nm in self.ambient:
+                    return [], cname(nm)
                 return [], self.global_const(nm, n['type']['qualType'])
             return [], cname(nm)
+        if k == 'MemberExpr' and self.strip(inner[0]).get('kind') == 'CXXThisExpr' and n.get('name') in self.ambient:
+            return [], cname(n['name'])
         if k == 'MemberExpr':
             obj = inner[0]
             rec = self.rec_of(self.strip(obj))
@@ -355,6 +373,29 @@ class Translator:
             if cal[0] == 'optbool':
                 b, t = self.expr(cal[1], cx)
                 return b, '(opt_is_some %s)' % t
+            if cal[0] == 'hasattr':
+                b1, t1 = self.expr(cal[1], cx)
+                b2, t2 = self.expr(cal[2], cx)
+                return b1 + b2, '(attr_has %s %s)' % (t1, t2)
+            if cal[0] == 'getattr':
+                b1, t1 = self.expr(cal[1], cx)
+                b2, t2 = self.expr(cal[2], cx)
+                tgt = self.strip(cal[3])
+                if tgt.get('kind') != 'DeclRefExpr':
+                    raise Unsupported('getAttr output argument')
+                var = tgt['referencedDecl']['name']
+                ty = cx.types.get(var)
+                fn = {'string': 'getattr_string', 'list (Z)': 'getattr_ints'}.get(ty)
+                if fn is None:
+                    raise Unsupported('getAttr into ' + str(ty))
+                v = cx.fresh('ga')
+                return b1 + b2 + [('let:' + v, '(%s %s %s %s)' % (fn, t1, t2, cname(var))),
+                                  ('let:' + cname(var), '(snd %s)' % v)], '(fst %s)' % v
+            if cal[0] == 'streq':
+                b1, t1 = self.expr(cal[1], cx)
+                b2, t2 = self.expr(cal[2], cx)
+                e = '(String.eqb %s %s)' % (t1, t2)
+                return b1 + b2, ('(negb %s)' % e if cal[3] else e)
             if cal[0] == 'optnot':
                 b, t = self.expr(cal[1], cx)
                 return b, '(negb (opt_is_some %s))' % t
@@ -390,8 +431,46 @@ class Translator:
                     return bs + [(v, call)], v
                 return bs, call
             raise Unsupported('call kind ' + cal[0])
+        if k == 'CXXDefaultArgExpr':
+            raise Unsupported('default argument in expression position')
+        if k == 'CXXStdInitializerListExpr' or k == 'InitListExpr':
+            items = inner[0]['inner'] if k == 'CXXStdInitializerListExpr' and self.strip(inner[0]).get('kind') != 'InitListExpr' else None
+            lst = self.strip(inner[0]) if k == 'CXXStdInitializerListExpr' else n
+            ts = []
+            bs = []
+            for it in lst.get('inner', []):
+                b, t = self.expr(it, cx)
+                bs += b
+                ts.append(t)
+            return bs, '[%s]' % '; '.join(ts)
         if k == 'CXXConstructExpr':
             qt = n['type']['qualType']
+            q0 = qt.replace('const ', '').replace('nix::', '').strip()
+            if q0 in ('std::string', 'string', 'std::basic_string<char>') :
+                args0 = [c for c in inner if c.get('kind') != 'CXXDefaultArgExpr']
+                if not args0:
+                    return [], '""%string'
+                return self.expr(args0[0], cx)
+            if q0.startswith('vector<') or q0.startswith('std::vector<'):
+                if not inner:
+                    return [], '[]'
+            if q0 in self.records:
+                args0 = [c for c in inner if c.get('kind') != 'CXXDefaultArgExpr']
+                if len(args0) == 1:
+                    a0 = self.strip(args0[0])
+                    aq = a0.get('type', {}).get('qualType', '')
+                    if a0.get('kind') in ('CXXStdInitializerListExpr', 'InitListExpr'):
+                        b, t = self.expr(a0, cx)
+                        items = t.strip('[]').split('; ')
+                        if len(items) == len(self.records[q0]):
+                            return b, '(Mk%s %s)' % (q0, ' '.join(items))
+                        raise Unsupported('initializer list length for ' + q0)
+                    if 'vector' in aq:
+                        b, t = self.expr(args0[0], cx)
+                        v = cx.fresh('ctor')
+                        return b + [(v, '(%s_of_vector %s)' % (q0, t))], v
+                    if aq.replace('const ', '').replace('nix::', '').replace('&', '').strip() == q0:
+                        return self.expr(args0[0], cx)
             if 'optional' in qt:
                 if not inner:
                     return [], 'None'
@@ -447,7 +526,10 @@ class Translator:
     def wrap(self, binds, body):
         out = body
         for v, m in reversed(binds):
-            out = 'bind %s (fun %s => %s)' % (m, v, out)
+            if v.startswith('let:'):
+                out = 'let %s := %s in %s' % (v[4:], m, out)
+            else:
+                out = 'bind %s (fun %s => %s)' % (m, v, out)
         return '(%s)' % out
 
     def binop(self, n, cx):
@@ -528,6 +610,14 @@ class Translator:
                 t = self.strip(cal[1])
                 if t.get('kind') == 'DeclRefExpr':
                     acc.add(t['referencedDecl']['name'])
+                if t.get('kind') == 'MemberExpr' and t.get('name') in self.ambient:
+                    acc.add(t['name'])
+        if k == 'CXXMemberCallExpr':
+            cal = self.callee(n)
+            if cal and cal[0] == 'getattr':
+                t = self.strip(cal[3])
+                if t.get('kind') == 'DeclRefExpr':
+                    acc.add(t['referencedDecl']['name'])
         for c in n.get('inner', []):
             if isinstance(c, dict) and c.get('kind'):
                 self.assigned(c, acc)
@@ -568,11 +658,15 @@ class Translator:
             return self.stmts(list(s.get('inner', [])) + rest, cx, cont) if True else None
         if k == 'NullStmt':
             return nxt()
+        if k == 'CXXOperatorCallExpr' and 'ostream' in s.get('type', {}).get('qualType', ''):
+            return nxt()           # text appended to a message stream: no effect on the decision
         if k == 'DeclStmt':
             out_open = []
             for d in s['inner']:
                 if d['kind'] != 'VarDecl':
                     raise Unsupported('declaration ' + d['kind'])
+                if 'stringstream' in d['type']['qualType']:
+                    continue
                 nm = d['name']
                 ty = self.ctype(d['type']['qualType'])
                 cx.types[nm] = ty
@@ -580,7 +674,8 @@ class Translator:
                 if init:
                     b, t = self.expr(init[0], cx)
                 else:
-                    b, t = [], {'F64': '(ofZ 0)', 'Z': '0', 'bool': 'false'}.get(ty, 'None' if ty.startswith('option') else None)
+                    b, t = [], {'F64': '(ofZ 0)', 'Z': '0', 'bool': 'false', 'string': '""%string'}.get(
+                        ty, 'None' if ty.startswith('option') else '[]' if ty.startswith('list') else None)
                     if t is None:
                         raise Unsupported('uninitialised ' + ty)
                 out_open.append((b, cname(nm), ty, t))
@@ -616,6 +711,12 @@ class Translator:
             cal = self.callee(s)
             if cal and cal[0] == 'assign':
                 tgt = self.strip(cal[1])
+                if tgt.get('kind') == 'MemberExpr' and self.strip(tgt['inner'][0]).get('kind') == 'CXXThisExpr' \
+                        and tgt.get('name') in self.ambient:
+                    nm = tgt['name']
+                    cx.types.setdefault(nm, self.ambient[nm])
+                    b, t = self.expr(cal[2], cx)
+                    return self.emit_binds(b, 'let %s : %s := %s in\n%s' % (cname(nm), cx.types[nm], t, nxt()), cx)
                 nm = tgt['referencedDecl']['name']
                 ty = cx.types[nm]
                 src = self.strip(cal[2])
@@ -746,15 +847,18 @@ class Translator:
         raise Unsupported('statement kind %s in %s' % (k, cx.fname))
 
     def emit_binds(self, binds, body, cx):
-        if binds and not cx.monadic:
+        if any(not v.startswith('let:') for v, _ in binds) and not cx.monadic:
             raise Unsupported('effect in pure function %s' % cx.fname)
         out = body
         for v, m in reversed(binds):
-            out = 'bind %s (fun %s =>\n%s)' % (m, v, out)
+            if v.startswith('let:'):
+                out = 'let %s := %s in\n%s' % (v[4:], m, out)
+            else:
+                out = 'bind %s (fun %s =>\n%s)' % (m, v, out)
         return out
 
     # ---------------------------------------------------------------- functions
-    def function(self, decl, key, coqname, record=None):
+    def function(self, decl, key, coqname, record=None, ambient=None):
         body = [c for c in decl.get('inner', []) if c.get('kind') == 'CompoundStmt']
         if not body:
             raise Unsupported('no body for ' + key)
@@ -768,6 +872,9 @@ class Translator:
             ty = self.ctype(p['type']['qualType'])
             cx.types[p['name']] = ty
             ps.append('(%s : %s)' % (cname(p['name']), ty))
+        for nm, ty in (ambient or []):
+            cx.types[nm] = ty
+            ps.append('(%s : %s)' % (cname(nm), ty))
         rq = decl['type']['qualType'].split('(')[0].strip()
         rty = self.ctype(rq)
         self.funcs[key] = {'coq': coqname, 'monadic': monadic, 'ret': rty, 'nparams': len(ps)}
@@ -777,6 +884,8 @@ class Translator:
             cx.scope.append(('this_', record))
         for p in params:
             cx.scope.append((cname(p['name']), cx.types[p['name']]))
+        for nm, ty in (ambient or []):
+            cx.scope.append((cname(nm), ty))
         term = self.stmts(list(body[0].get('inner', [])), cx, None)
         full = 'res (%s)' % rty if monadic else rty
         return '\n'.join(cx.prelude) + 'Definition %s %s : %s :=\n%s.\n' % (coqname, ' '.join(ps), full, indent(term))
